@@ -30,7 +30,7 @@ func init() {
 		rng := rand.New(rand.NewSource(seed*709 + 11))
 		reps := 1
 		if tier == "thorough" {
-			reps = 40
+			reps = 150
 		}
 		for r := 0; r < reps; r++ {
 			// library <-> library: the 2x2 enabled/disabled table plus header-stripped legacy, every direction
